@@ -244,7 +244,7 @@ def no_decision_on_defaults(ctx: Ctx):
                         hits.append((name.split("@")[0], s_))
         return hits
 
-    KIND_READERS = ("lcm.functools.allow_only_kwargs", "lcm.functools.allow_args")  # they convert between calling conventions
+    KIND_READERS = ("lcm.functools",)  # allow_only_kwargs / allow_args and their helpers convert between calling conventions
 
     def scan_kind(frames):
         hits = []
@@ -340,8 +340,13 @@ def weight_index_order(ctx: Ctx):
                 if s_[0] == "comp" and any(callee_name(x) == "inspect.signature" for x in walk(s_[3][0][1]))]
         ok = any(callee_name(d[3][0][1]) in ("builtins.list", None) and not any(callee_name(x) in ("builtins.sorted", "builtins.reversed", "builtins.set")
                                                                                  for x in walk(d[3][0][1])) for d in dims)
-        ctx.ob("WORDER:template-order", True if ok else None, prog.node_where(tf.module, prog.funcs[tq].node),
-               "the template lays out the axes in signature order" if ok else "axis order of the template not recognised")
+        resorted = bool(dims) and all(any(callee_name(x) in ("builtins.sorted", "builtins.reversed", "builtins.set")
+                                          for x in walk(d[3][0][1])) for d in dims)
+        ctx.ob("WORDER:template-order", True if ok else False if resorted else None, prog.node_where(tf.module, prog.funcs[tq].node),
+               "the template lays out the axes in signature order" if ok else
+               "the axes of the transition template are laid out in a re-sorted order of the next function's arguments, while the "
+               "weight function indexes the array in signature order" if resorted else "axis order of the template not recognised",
+               lhs=show(dims[0][3][0][1])[:160] if dims else "")
 
 
 @rule("R0.UNDEF")
@@ -407,3 +412,86 @@ def defined_before_use(ctx: Ctx):
     if not bad:
         ctx.ob("UNDEF:all-uses-defined", True, "", f"every value used in the {n} results, effects, loop updates and guards of lcm is assigned first")
     ctx.floor("frames_scanned", 100)
+
+
+@rule("R10.BYNAME")
+def rebinding_by_name(ctx: Ctx):
+    """Every function that lcm gives an explicit signature (`with_signature(args=L)`) while it accepts `*args, **kwargs`
+    turns what it was called with into a by-name / by-position view with `all_as_kwargs` / `all_as_args` for the SAME
+    list L, and touches the raw `args` / `kwargs` nowhere else.  Otherwise the meaning of a value depends on how the
+    caller happened to pass it (positionally, by keyword, in which order)."""
+    import ast as _ast
+
+    from lcmsa.match import all_frames, frame_terms, loop_terms
+
+    prog = ctx.prog
+    sites = {}
+    for _name, fr in sorted(all_frames(prog).items()):
+        for t in frame_terms(fr) + loop_terms(prog, fr):
+            for s_ in walk(t):
+                if s_[0] == "call" and is_term(s_[1]) and s_[1][0] == "call" and callee_name(s_[1]) == "dags.signature.with_signature" \
+                        and len(s_[2]) == 1 and kw(s_[1], "args") is not None:
+                    tgt = prog.resolve_callable(s_[2][0])
+                    if tgt is not None and tgt[0] == "closure":
+                        sites.setdefault(tgt[2], (tgt, kw(s_[1], "args")))
+    for cid, (tgt, L) in sorted(sites.items()):
+        info = prog.closures[cid][0]
+        node = info.node
+        if not isinstance(node, _ast.FunctionDef) or node.args.vararg is None or node.args.kwarg is None:
+            continue  # explicit parameters: Python binds by name already
+        ctx.count("signature_sites")
+        va, kwa = node.args.vararg.arg, node.args.kwarg.arg
+        cf = prog.closure_frame(cid, bind={})  # the body as written: all_as_args / all_as_kwargs not seen through
+        q = cf.qualname
+        pa, pk = ("param", q, va), ("param", q, kwa)
+        where = prog.node_where(cf.module, node)
+        key = f"BYNAME:{q.removeprefix('lcm.').replace('.<locals>', '')}"
+        terms = [t for t in ([cf.ret] if cf.ret is not None else []) + [e for _c, e, _n in cf.effects] + [e for _c, e, _n in cf.raises]
+                 + [c for cs, _e, _n in cf.raises for c in cs] + loop_terms(prog, cf)]
+        rebinds = [c for t in terms for c in walk(t) if c[0] == "call" and callee_name(c) in ("lcm.functools.all_as_args", "lcm.functools.all_as_kwargs")
+                   and (kw(c, "args") if kw(c, "args") is not None else (c[2][0] if c[2] else None)) == pa
+                   and (kw(c, "kwargs") if kw(c, "kwargs") is not None else (c[2][1] if len(c[2]) > 1 else None)) == pk]
+        if not rebinds:
+            raw_used = any(x in (pa, pk) for t in terms for x in walk(t))
+            parts = {L} | ({x for x in L[1]} if L[0] in ("list", "tuple") else set())
+            mentions_names = any(x in parts for t in terms for x in walk(t) if is_term(x) and x[0] not in ("const",))
+            if mentions_names:
+                raw_used = False  # a hand-written rebinding with the signature's names: outside this rule's vocabulary
+            ctx.ob(key, False if raw_used else None, where,
+                   f"{q} has the signature {show(L)[:60]} but uses what it was called with ({va} / {kwa}) directly, without "
+                   "all_as_args / all_as_kwargs(arg_names=<that list>): values are taken in call order, not by name" if raw_used
+                   else "by-name rebinding not recognised", lhs=show(L)[:120])
+            continue
+        def unconv(t):
+            while t is not None and callee_name(t) in ("builtins.list", "builtins.tuple") and len(t[2]) == 1:
+                t = t[2][0]
+            return t
+
+        names = {unconv(kw(c, "arg_names") if kw(c, "arg_names") is not None else (c[2][2] if len(c[2]) > 2 else None)) for c in rebinds}
+        same = names == {unconv(L)}
+        # any other use of the raw parameters
+        allowed = set()
+        for c in rebinds:
+            allowed.add(c)
+        stray = False
+        def visit(t, inside):
+            nonlocal stray
+            if not isinstance(t, tuple):
+                return
+            if is_term(t) and t in allowed:
+                return
+            if is_term(t) and t in (pa, pk):
+                stray = True
+                return
+            for x in t:
+                if isinstance(x, tuple):
+                    visit(x, inside)
+        for t in terms:
+            visit(t, False)
+        ok = (True if not stray else None) if same else False
+        ctx.ob(key, ok, where,
+               f"{q.split('.')[-1]} rebinds its arguments by name with the list of its signature and uses nothing else of the raw call" if ok else
+               (f"the names used for rebinding ({show(next(iter(names)))[:60] if names else '?'}) are not the list of the signature ({show(L)[:60]})"
+                if not same else f"{va} / {kwa} are also used directly, besides the by-name view: those values are taken in call order"),
+               lhs=show(L)[:120], rhs=show(next(iter(names)))[:120] if names else "")
+    ctx.floor("signature_sites", 10)
